@@ -179,3 +179,8 @@ Fixpoint bad_from {A} (ok : A -> bool) (k : nat) (cs : list A) : list nat :=
   | c :: cs' => if ok c then bad_from ok (S k) cs' else k :: bad_from ok (S k) cs'
   end.
 Definition bad {A} (ok : A -> bool) (cs : list A) : list nat := bad_from ok 0 cs.
+
+(* numpy round(x, 12): multiply, round to nearest even integer, divide *)
+Definition f_round12 (x : float) : float :=
+  let y := x * 1e12 in
+  if abs y <? two52 / 4 then fround y / 1e12 else x.
